@@ -142,10 +142,14 @@ class Machine:
         """returns a thunk building the object, or None when the op must be skipped"""
         tag = op[0]
         S = self.slots
+        # call style: an absent optional argument is either omitted or spelled out as an explicit `=None` keyword
+        # (the two must be indistinguishable); alternates deterministically with the position in the history
+        self.ncalls = getattr(self, "ncalls", 0) + 1
+        explicit = self.ncalls % 2 == 0
         if tag == "dom":
             _, dst, c, name, length, prefix, dtype = op
             kw = {k: v for k, v in (("name", name), ("length", length), ("prefix", prefix), ("dtype", dtype))
-                  if v is not None}
+                  if v is not None or explicit}
             return lambda: ZOO[c](**kw)
         if tag in ("cplx", "strand"):
             if tag == "cplx":
@@ -157,7 +161,7 @@ class Machine:
                 if any(isinstance(e, int) and S[e] is None for e in seq):
                     return None
                 seq = [S[e] if isinstance(e, int) else e for e in seq]
-            kw = {k: v for k, v in (("name", name), ("prefix", prefix)) if v is not None}
+            kw = {k: v for k, v in (("name", name), ("prefix", prefix)) if v is not None or explicit}
             if tag == "cplx":
                 if seq is None:
                     return (lambda: ZOO[c](None, None, **kw))
@@ -165,7 +169,7 @@ class Machine:
             return lambda: ZOO[c](seq, **kw)
         if tag == "macro":
             _, dst, c, members, name = op
-            kw = {} if name is None else {"name": name}
+            kw = {} if (name is None and not explicit) else {"name": name}
             if members is None:
                 return lambda: ZOO[c](**kw)
             if any(S[e] is None for e in members):
@@ -174,7 +178,7 @@ class Machine:
             return lambda: ZOO[c](ms, **kw)
         if tag == "rxn":
             _, dst, c, rp, rtype, name = op
-            kw = {} if name is None else {"name": name}
+            kw = {} if (name is None and not explicit) else {"name": name}
             if rp is None:
                 return lambda: ZOO[c](None, None, rtype, **kw)
             r, p = rp
